@@ -197,6 +197,18 @@ def gen_workspace(root, rng, depth=None, n_names=None, venv=None, collisions=Tru
                     s2, _ = fixture_src(ws, f"pk_{n}", rng)
                     ws.files[os.path.join(d, mod, "__init__.py")] = HEADER + s2
                     ws.features.add(("module_and_package_same_name",))
+                if role in ("star_import", "explicit_import") and lv >= 1 and rng.random() < 0.3 and not transitive \
+                        and not (module_pkg_twins and os.path.join(d, mod, "__init__.py") in ws.files):
+                    # the module lives one or two directories further up: `from ..mod import` / `from ...mod import`
+                    up = 1 if lv == 1 or rng.random() < 0.5 else 2
+                    updir = dirs[lv - up]
+                    newrel = os.path.join(updir, mod + ".py")
+                    if newrel not in ws.files:
+                        ws.files[newrel] = ws.files.pop(modrel)
+                        dots = "." * (up + 1)
+                        imports.append(f"from {dots}{mod} import *\n" if role == "star_import" else f"from {dots}{mod} import {n}\n")
+                        ws.features.add(("relative_import_level", up + 1))
+                        continue
                 if role == "star_import":
                     imports.append(f"from .{mod} import *\n")
                 elif role == "star_abs":
